@@ -1506,6 +1506,12 @@ func ruleLockPairing(c *Check, rule string) {
 				return ok && !o2.Acquire && o2.Key == op.Key && o2.Read == op.Read
 			}
 			isRet := func(in ssa.Instruction) bool { _, r := in.(*ssa.Return); return r }
+			// an acquire helper: it returns the closure that releases the lock it took (`defer t.lockTarget(x)()`)
+			// — the release is owed by its callers, which must invoke what they get back
+			if ok, why := returnsItsUnlock(c, fn, op); ok {
+				c.Require(why == "", rule, "lock-released/"+c.P.FuncName(fn)+"/"+strings.TrimPrefix(op.Key, "*"), "the function returns the closure that releases the lock, and every caller invokes (or defers) it", why, c.P.InstrPos(call))
+				continue
+			}
 			reach, at := engine.PathExists(fn, call, isRet, engine.PathQuery{CutInstr: release})
 			pos := c.P.InstrPos(call)
 			w := ""
@@ -1655,4 +1661,57 @@ func ruleMessagesCarryCopies(c *Check, rule string) {
 	if n == 0 {
 		c.Unknown(rule, "message-carries-copy", "no map is stored into a console message struct", "-")
 	}
+}
+
+// returnsItsUnlock: every return of fn yields a function literal whose body releases the lock op names; the
+// second result says what is wrong at a call site (a caller that drops the closure).
+func returnsItsUnlock(c *Check, fn *ssa.Function, op engine.LockOp) (bool, string) {
+	res := fn.Signature.Results()
+	if res.Len() != 1 {
+		return false, ""
+	}
+	if _, isFunc := res.At(0).Type().Underlying().(*types.Signature); !isFunc {
+		return false, ""
+	}
+	rets := engine.Returns(fn)
+	if len(rets) == 0 {
+		return false, ""
+	}
+	for _, r := range rets {
+		if r.Block() == fn.Recover {
+			continue
+		}
+		mc, ok := r.Results[0].(*ssa.MakeClosure)
+		if !ok {
+			return false, ""
+		}
+		lit, ok := mc.Fn.(*ssa.Function)
+		if !ok {
+			return false, ""
+		}
+		releases := false
+		for _, s := range engine.SitesIn(lit) {
+			if o2, ok := engine.ClassifyLock(s); ok && !o2.Acquire && o2.Read == op.Read {
+				releases = true
+			}
+		}
+		if !releases {
+			return false, ""
+		}
+	}
+	for _, cs := range c.G.CallersOf(fn) {
+		v := cs.Value()
+		used := false
+		if v != nil && v.Referrers() != nil {
+			for _, r := range *v.Referrers() {
+				if ci, ok := r.(ssa.CallInstruction); ok && ci.Common().Value == ssa.Value(v) {
+					used = true // called or deferred
+				}
+			}
+		}
+		if !used {
+			return true, "the unlock closure returned by " + c.P.FuncName(fn) + " is not invoked at " + c.P.InstrPos(cs) + ": the lock stays held"
+		}
+	}
+	return true, ""
 }
